@@ -286,6 +286,16 @@ class Archi:
     def wait_check(self): LOG.append('wait_check')
     def get_champions_f(self): LOG.append('champions'); return [np.array([100.0 - 10 * Archi.n]), np.array([200.0 - 10 * Archi.n])]
     def get_champions_x(self): return [np.array([float(Archi.n), 1.0]), np.array([float(Archi.n), 2.0])]
+    def __iter__(self):          # the islands and their populations (read when best individuals are requested)
+        class Pop:
+            def __init__(self, i): self.i = i
+            def get_x(self): return np.array([[1.0 + self.i, 3.0], [2.0 + self.i, 4.0], [0.5 + self.i, 5.0]])
+            def get_f(self): return np.array([[30.0], [10.0 + self.i], [20.0]])
+        class Isl:
+            def __init__(self, i): self.i = i
+            def get_population(self): return Pop(self.i)
+        return iter([Isl(0), Isl(1)])
+    def __len__(self): return 2
 class Problem:
     sim_fit_range = None
     all_target_data = xr.DataArray(np.zeros((1, 2, 2)), dims=['processor', 'y', 'x'])
@@ -319,6 +329,18 @@ for i, k in enumerate(['photon', 'charge', 'pixel', 'signal', 'image']):
     if not VIOLATED and (float(np.array(dt['/simulated/' + k]).ravel()[0]) != i + 1.0 or float(np.array(dt['/full_size/simulated_' + k]).ravel()[0]) != i + 1.0):
         VIOLATED, DETAIL = True, f'node simulated {k} holds another bucket'
 """, "expect": "run_evolve reports per evolution the champions read after that evolution finished and re-simulates the last champions"}
+
+
+BEST_REPLAY = lambda w: {"code": EVOLVE_REPLAY(w)["code"].replace("num_best_decisions=None)", "num_best_decisions=2)") + """
+if not VIOLATED:
+    bd, bp, bf = (np.array(dt['/best/' + k].isel(evolution=-1)) for k in ('decision', 'parameters', 'fitness'))
+    # island i: individuals sorted by fitness -> [10+i, 20]; decisions [[2+i, 4], [0.5+i, 5]]; parameters = 2 * decision (the fake problem)
+    want_d = np.array([[[2.0 + i, 4.0], [0.5 + i, 5.0]] for i in range(2)])
+    if not np.allclose(np.squeeze(bf), [[10.0, 20.0], [11.0, 20.0]]) or not np.allclose(np.squeeze(bd), want_d):
+        VIOLATED, DETAIL = True, f'/best/fitness {np.squeeze(bf).tolist()} /best/decision {np.squeeze(bd).tolist()}'
+    elif not np.allclose(np.squeeze(bp), 2.0 * want_d):
+        VIOLATED, DETAIL = True, f'/best/parameters {np.squeeze(bp).tolist()} are not the values applied for /best/decision (expected {(2.0 * want_d).tolist()})'
+""", "expect": "the /best nodes of the report hold best_fitness / best_decision / best_parameters, parameters being the values applied for that decision"}
 
 
 def evolve_unit(u: Unit):
@@ -401,6 +423,10 @@ def evolve_unit(u: Unit):
                     want[f"/full_size/simulated_{b}"] = f"{sim}['simulated_{b}']"
                 want["/full_size/target"] = "problem.target_full_scale"
                 judge(u, p, f"run_evolve.nodes_hold_their_own_variable[{tagname}]", [nodes.get(k) for k in sorted(want)], [want[k] for k in sorted(want)], EVOLVE_REPLAY)
+                # the best individuals, whenever they are reported: each /best node holds the like-named variable (decision vectors and
+                # the values applied to the pipeline are different things for logarithmic parameters)
+                bnodes = sorted(k for k in nodes if k.startswith("/best/"))
+                judge(u, p, f"run_evolve.best_nodes_hold_their_own_variable[{tagname}]", [nodes[k] for k in bnodes], [f"<champions>['best_{k.split('/')[-1]}']" for k in bnodes], BEST_REPLAY)
                 ex_kw = rec.get("extract", [{}])[0]
                 u.oblige(p, f"run_evolve.simulated_from_the_resimulation[{tagname}]", len(rec.get("extract", [])) == 1 and term(p.ex, ex_kw.get("df_results")) == "df_results", {}, EVOLVE_REPLAY)
             u.cover(f"run_evolve.cover[{tagname}]", ps, lambda p: p.kind == "return")
